@@ -2,5 +2,44 @@
 signature of an *open* entry of known_findings.json is reported as KNOWN-FINDING, anything else as VIOLATION."""
 
 
+def _wl_by_key(w, key):
+    for wl in w['workloads']:
+        if '%s/%s[%s]' % (wl['ns'], wl['name'], wl['kind']) == key:
+            return wl
+    return None
+
+
+def _svc_selects(s, wl):
+    return (not s['selNil']) and s['ns'] == wl['ns'] and all(wl['labels'].get(k) == v for k, v in s['selector'].items())
+
+
+def d10b(m, w):
+    """An Ingress backend `number: N` reaches a Service (selecting the reported workload) that has a port whose
+    numeric targetPort is N although its port number is not N: the tool designates that port by its targetPort."""
+    if not m or not m[0].startswith('C10'):
+        return False
+    wl = _wl_by_key(w, m[1]) if len(m) > 1 else None
+    if wl is None:
+        return False
+    for g in w['ingresses']:
+        if g['ns'] != wl['ns']:
+            continue
+        bes = ([] if g['defaultNil'] else [g['default']]) + list(g['rules'])
+        for be in bes:
+            if be['port']['kind'] != 'num':
+                continue
+            n = be['port']['num']
+            for s in w['services']:
+                if s['name'] == be['svc'] and _svc_selects(s, wl):
+                    for sp in s['ports']:
+                        tp = sp['targetPort']
+                        if (not tp['nil']) and tp['kind'] == 'num' and tp['num'] == n and sp['port'] != n:
+                            return True
+    return False
+
+
 def classify(prop, m, wev, tev):
+    w = wev.get('world') if isinstance(wev, dict) else None
+    if prop == 'C10' and w is not None and d10b(m, w):
+        return 'D10b-ingress-number-matches-targetport'
     return None
